@@ -220,8 +220,28 @@ def compatible(a, b):
 
 def part_histories(ck, exe, model):
     r = ck.rng
-    nh, nmax = (260, 9) if ck.tier == "quick" else (4000, 16)
+    nh, nmax = (300, 9) if ck.tier == "quick" else (12000, 16)
     H = []          # (cid, lp, cfg, kind, steps)   steps: list of (op-line, expectation-key)
+    # minimised cases first: corpus/C04/*.hist = LP block + the operations of the history
+    cdir = os.path.join(vlib.ROOT, "corpus", "C04")
+    for f in sorted(os.listdir(cdir)) if os.path.isdir(cdir) else []:
+        if not f.endswith(".hist"):
+            continue
+        cols, rows, steps, head = [], [], [], None
+        for l in open(os.path.join(cdir, f)):
+            t = l.split()
+            if not t or t[0].startswith("#"):
+                continue
+            if t[0] == "LP":
+                head = t
+            elif t[0] == "C":
+                cols.append((Fraction(t[1]), lpgen.fr(t[2]), lpgen.fr(t[3])))
+            elif t[0] == "R":
+                rows.append((lpgen.fr(t[1]), {int(e.split(":")[0]): Fraction(e.split(":")[1]) for e in t[3:]}, lpgen.fr(t[2])))
+            else:
+                steps.append(l.strip())
+        if head:
+            H.append(("c-" + f[:-5], lpgen.LP(head[2] == "max", Fraction(head[3]), cols, rows, "corpus:" + f[:-5]), {}, "corpus", steps))
     for k in range(nh):
         q = r.randrange(10)
         if q < 5:
@@ -341,7 +361,12 @@ def part_histories(ck, exe, model):
                 ck.violation("queries-disagree:status:%s" % where, "basisRowStatus/basisColStatus (%s,%s) differ from getBasis (%s,%s) at '%s'" % (
                     d.prow, d.pcol, d.rows, d.cols, tag), dict(ctx, at=tag, theorem="C04_queries_agree"))
             if d.ind is not None and (sorted(d.ind) != d.basic_set() or len(d.ind) != d.m):
-                if a.get("v", {}).get("valid") == "1":
+                fresh_ids = after_solve or "setbasis" in tag
+                if not fresh_ids:
+                    # between a modification and the next solve the solver's basis ids are not maintained (the basis matrix is not set
+                    # up); getBasisInd is documented for use after a solve: counted, reported, not judged
+                    ck.count("basisind-stale-after-modification:%s" % tag.split(":")[-1])
+                elif a.get("v", {}).get("valid") == "1":
                     ck.violation("queries-disagree:basisind:%s" % where, "getBasisInd %s does not describe the basic set %s of getBasis at '%s'" % (
                         d.ind, d.basic_set(), tag), dict(ctx, at=tag, theorem="C04_queries_agree"))
             # 3. descriptor behind the answer
@@ -380,7 +405,7 @@ def part_histories(ck, exe, model):
                 break
         free_nb_row = bool(start is not None and start.has and not start.unsafe and any(
             start.rows[i] == "Z" and start.lhs[i] is None and start.rhs[i] is None for i in range(min(start.m, len(start.rows)))))
-        inconclusive = lambda st: st.startswith("ABORT") or st in ("ERROR", "SINGULAR", "UNKNOWN", "NO_PROBLEM", "NOT_INIT")
+        inconclusive = lambda st: st.startswith("ABORT") or st in ("ERROR", "SINGULAR", "UNKNOWN", "NO_PROBLEM", "NOT_INIT", "OPTIMAL_UNSCALED_VIOLATIONS")
         if cold is not None and coldns is not None and not inconclusive(cold["status"]) and not inconclusive(coldns["status"]) \
                 and cold["status"] != "RUNNING" and coldns["status"] != "RUNNING" and not compatible(cold["status"], coldns["status"]):
             ck.count("cold-verdict-depends-on-presolve:%s/%s" % (cold["status"], coldns["status"]))
@@ -395,13 +420,26 @@ def part_histories(ck, exe, model):
                 ck.count("warm-compared:%s:%s" % (kind, w))
                 sig_ctx = "%s:%s" % (kind, w)
                 okst = [c for c in refs if compatible(s2["status"], c["status"])]
+                if not okst and (s2["status"].startswith("ABORT") or s2["status"] == "OPTIMAL_UNSCALED_VIOLATIONS"):
+                    # the warm-started solve stops at a limit or reports cycling: an admitted non-answer, counted
+                    ck.count("warm-solve-gave-up:%s" % s2["status"])
+                    continue
+                if not okst and s2["status"] == "SINGULAR" and start is not None and start.has and not start.unsafe:
+                    dt = bc.det(start.basis_matrix()) if len(start.basic_set()) == start.m else None
+                    if dt is None or dt == 0:
+                        # the basis handed in (setBasis with an arbitrary valid array) is singular: SINGULAR is the honest answer
+                        ck.count("warm-start-from-singular-user-basis")
+                        continue
                 if not okst:
                     if free_nb_row:
                         sig = "warmstart-free-nonbasic-row:status"
+                    elif s2["status"] in ("SINGULAR", "RUNNING", "ERROR", "UNKNOWN"):
+                        # the warm-started solve gives up (from a regular start basis) where the cold solve decides
+                        sig = "warmstart-inconclusive:%s" % s2["status"]
                     else:
                         sig = "warmstart-status:%s:%s->%s" % (sig_ctx, cold["status"], s2["status"])
-                    ck.violation(sig, "a solve started from the reported basis (%s, history '%s') ends %s, the solve from scratch ends %s%s" % (
-                        w, kind, s2["status"], cold["status"], " [the start basis has a free row that is non-basic (ZERO)]" if free_nb_row else ""),
+                    ck.violation(sig, "a solve started from the reported basis (%s, history '%s') ends %s, the solve from scratch ends %s (without presolve: %s)%s" % (
+                        w, kind, s2["status"], cold["status"], coldns["status"] if coldns else "-", " [the start basis has a free row that is non-basic (ZERO)]" if free_nb_row else ""),
                         dict(ctx, warm=s2, cold=cold, coldns=coldns, start_rows=start.rows if start else None, start_cols=start.cols if start else None))
                 elif s2["status"] == "OPTIMAL":
                     good = False
@@ -432,7 +470,7 @@ def k_sample(ck, cid):
 # --------------------------------------------------------------------------------------------------------------
 def part_exact(ck, exe):
     r = ck.rng
-    ne, nmax = (40, 7) if ck.tier == "quick" else (600, 12)
+    ne, nmax = (60, 7) if ck.tier == "quick" else (1500, 12)
     L = []
     htxt = ""
     for k in range(ne):
